@@ -221,3 +221,45 @@ def restart_scenario(rng, size='quick', **over):
             lines += [f'dmgsweep {mode}' + (' lazy' if rng.random() < 0.3 else ''), 'states']
             lines += queries('all', keys, absent)
     return lines
+
+
+def meta_extra(m):
+    if m in ('-', 'e'):
+        return 0
+    return 17 + len(m[2:]) // 2
+
+
+def bytes_scenario(rng, size='quick', **over):
+    """C05: values of every size class around the single-pass (4 KiB) and background-I/O (80 KiB) thresholds,
+    every metadata shape; blob bytes compared with the L5 model; then stored data bytes are altered on disk"""
+    c, line = cfg_line(rng, dup=1, **over)
+    klen = c['key']
+    keys = mk_keys(rng, klen, rng.randint(2, 4))
+    lines = [line, 'states']
+    seed = 1
+    n = rng.randint(3, 7) if size == 'quick' else rng.randint(5, 14)
+    big_budget = 1 if size == 'quick' else 2
+    for i in range(n):
+        m = rng.choice(METAS_W + ['m:' + 'ab' * rng.choice([1, 30, 200])])
+        head = 65 + klen + meta_extra(m)
+        classes = [0, 1, 2, 17, 300, 4096 - head - 1, 4096 - head, 4096 - head + 1, 5000,
+                   81920 - head - 1, 81920 - head, 81920 - head + 1]
+        ln = rng.choice(classes)
+        if big_budget > 0 and rng.random() < 0.15:
+            ln = rng.choice([200_000, 300_000])
+            big_budget -= 1
+        k = rng.choice(keys)
+        lines += [f'w {k} {rng.choice(TS_POOL)} {m} {ln} {seed % 250 + 1}', 'states']
+        seed += 1
+        if rng.random() < 0.2:
+            lines += [f'd {k} {rng.choice(TS_POOL)} {rng.choice(["-", "m:01"])} {rng.choice([0, 1])}', 'states']
+        if rng.random() < 0.25:
+            lines += [rng.choice(['close_active', 'force always', 'settle', 'restart']), 'states']
+        for kk in keys:
+            lines += [f'r {kk}', f'ram {kk}']
+        lines.append('blobsum')
+    lines += [f'flipsweep {12 if size == "quick" else 60} {rng.randrange(1, 10**6)}', 'states']
+    for kk in keys:
+        lines += [f'r {kk}', f'ram {kk}']
+    lines.append('blobsum')
+    return lines
